@@ -120,6 +120,10 @@ def local_id_identity_sites(fn: Func) -> list:
     out = []
 
     def is_id(e):
+        # `getattr(x, "id", default)` is the same read as `x.id`
+        if isinstance(e, ast.Call) and isinstance(e.func, ast.Name) and e.func.id == "getattr" and len(e.args) >= 2 \
+                and isinstance(e.args[1], ast.Constant) and e.args[1].value == "id":
+            return not _flat_receiver(e.args[0]) and (fn.qual, norm(e.args[0])) not in LOCAL_ID_EXCEPTIONS
         return isinstance(e, ast.Attribute) and e.attr == "id" and not _flat_receiver(e.value) \
             and (fn.qual, norm(e.value)) not in LOCAL_ID_EXCEPTIONS
     for n in own_nodes(fn):
@@ -208,3 +212,48 @@ def framework_callbacks(repo) -> list:
                     if f.cls is not None and f.cls.name == st.name and f.parent is None and f.module is m:
                         out.append(f)
     return out
+
+
+def process_state_rule(ctx: Ctx, rid: str, entries: list, what: str, census: bool = True):
+    """No answer on the paths below `entries` comes from state that outlives the question:
+      * memo-key soundness (spverif/memo.py): a container entry, or a single attribute slot, that later calls are answered from
+        is keyed / validated by every input the stored value was computed from;
+      * census of class- and module-level mutable containers with a run-time writer in reach (c12.shared_container_census).
+    `what` says why a stale answer breaks the calling property."""
+    from ..memo import control_ok, memo_findings, slot_control_ok, slot_memo_findings
+    from ..model import AnchorMissing
+    if not control_ok() or not slot_control_ok():
+        raise AnchorMissing("memo rules: a built-in control sample no longer matches")
+    reach = sorted(ctx.cg.reach(entries), key=lambda f: f.key)
+    n = 0
+    for fn in reach:
+        if not isinstance(fn.node, (ast.FunctionDef, ast.AsyncFunctionDef)):
+            continue
+        n += 1
+        by_store = {}
+        for cont, key, p, st in memo_findings(fn.node):
+            by_store.setdefault((cont, norm(key)), (st, []))[1].append(p)
+        for (cont, k), (st, lost) in sorted(by_store.items()):
+            ctx.ob(rid, f"{fn.qual}: entry {cont}[{k}]", (fn, st), False,
+                   f"a value computed from {', '.join(lost)} is stored under a key that does not contain {', '.join(lost)} itself: later calls "
+                   f"with a different {lost[0]} that maps to the same key are answered with the first call's value; {what}",
+                   key=key_of_text(rid, fn.qual, f"{cont} lost {','.join(lost)}"))
+        by_slot = {}
+        def hook(e, fn=fn):
+            from ..dep import full
+            try:
+                return {a.split(":", 1)[1] for a in full(ctx.dep.of(fn).deps_of(e, control=True)) if a.startswith("param:")}
+            except Exception:
+                return set()
+        for slot, p, st in slot_memo_findings(fn.node, hook):
+            by_slot.setdefault(slot, (st, []))[1].append(p)
+        for slot, (st, lost) in sorted(by_slot.items()):
+            ctx.ob(rid, f"{fn.qual}: slot {slot}", (fn, st), False,
+                   f"the value kept in {slot} was computed from {', '.join(lost)}, and the test that decides whether the kept value is "
+                   f"returned does not compare {', '.join(lost)}: the first caller's value answers every later one; {what}",
+                   key=key_of_text(rid, fn.qual, f"{slot} lost {','.join(lost)}"))
+    ctx.ob(rid, f"memo soundness over {n} functions reachable from {', '.join(e.qual for e in entries)}", entries[0], True,
+           "no container entry or attribute slot is keyed by less than the inputs its value was computed from", nontrivial=False)
+    if census:
+        from .c12 import shared_container_census
+        shared_container_census(ctx, rid, reach, floor=0)
